@@ -234,6 +234,7 @@ impl Ready {
 
 /// ReadyRecord encapsulates some needed data from the corresponding Ready.
 #[derive(Default, Debug, PartialEq)]
+#[cfg_attr(tikv_raft_rs_verif, derive(Clone))]
 struct ReadyRecord {
     number: u64,
     // (index, term) of the last entry from the entries in Ready
@@ -290,6 +291,7 @@ impl LightReady {
 /// RawNode is a thread-unsafe Node.
 /// The methods of this struct correspond to the methods of Node and are described
 /// more fully there.
+#[cfg_attr(tikv_raft_rs_verif, derive(Clone))]
 pub struct RawNode<T: Storage> {
     /// The internal raft state.
     pub raft: Raft<T>,
